@@ -6,49 +6,49 @@ import os
 V = os.path.dirname(os.path.dirname(os.path.abspath(__file__)))
 
 T = {
-    "C01": ("fault_enumeration", "4/C01", "enumerated and generated reply faults vs a reference accessory (exhaustive bit flips, recorded-handshake replay between two real exchanges, truncated replies), also through the simulated IP/BLE/CoAP transports",
+    "C01": ("fault_enumeration", "4/C01", "enumerated and generated reply faults vs a reference accessory (exhaustive bit flips, recorded-handshake replay between two real exchanges, truncated replies), also through the simulated IP/BLE/CoAP transports (incl. resumes refused by a peer that proved nothing)",
             "The real get_session_keys generator and the three transports' verify drivers are run against a reference accessory written from the HAP text; every single-bit flip of M2 and an enumerated family of structural/key/identifier/transcript/replay faults must end in an exception, honest runs must be accepted by the reference and yield HKDF outputs equal to the reference's.",
             "Trusts `cryptography` primitives and the reference peer in vlib/refhap.py; arbitrary adversaries beyond the enumerated fault families are not covered."),
     "C02": ("exploration", "4/C02", "differential vs independent SRP-6a integer arithmetic, directed leading-zero mining; mined exchanges run as complete pair-setups against a reference accessory",
             "SrpClient outputs are compared byte-for-byte with Python-integer SRP-6a written from RFC 5054/HAP for generated codes, salts and secrets, with seeds stepped until A, B, S, K, M1 or M2 start with 0x00; all 512 single-bit flips of M2 must be rejected.",
             "Reference arithmetic in vlib/refhap.py (k computed, not copied); SHA-512 from hashlib."),
-    "C03": ("fault_enumeration", "4/C03", "enumerated and generated M2/M4/M6 faults vs a reference pair-setup accessory, at generator level and end to end through the Discovery classes on simulated IP/BLE/CoAP transports",
+    "C03": ("fault_enumeration", "4/C03", "enumerated and generated M2/M4/M6 faults vs a reference pair-setup accessory, at generator level and end to end through the Discovery classes on simulated IP/BLE/CoAP transports; unknown items around every reply, second attempts on the same discovery / alias, replies chunked and in two segments",
             "perform_pair_setup_part1/2 run against a reference accessory; proof-breaking faults must raise and return nothing, honest runs must be accepted (M3 proof, M5 signature) by the reference and return a self-consistent record.",
             "Trusts `cryptography` primitives and the reference accessory."),
     "C04": ("fault_enumeration", "4/C04", "exhaustive decision table over step x state encoding x error x field subsets; add/remove-pairing and pair-verify cells through the simulated IP (HTTP status / content-type variants) and BLE transports",
             "Every cell of the finite table is executed against the real protocol generators / add- and remove-pairing calls and compared with the documented exception class; control cells must succeed.",
             "Fields not defined for a step are placed after State/Error (the suite pins the filter as stop-at-first-unexpected)."),
-    "C05": ("exploration", "4/C05", "reference framer/deframer differential, exhaustive 1- and 2-cut segmentations, bit flips",
+    "C05": ("exploration", "4/C05", "reference framer/deframer differential, exhaustive 1- and 2-cut segmentations, bit flips, exhaustive length-prefix bit grid over power-of-two frame sizes",
             "SecureHomeKitProtocol is fed reference-encrypted streams under generated frame sizes and all single/double cuts of small streams; outbound writes are deframed and decrypted by the reference.",
             "Reference AEAD framing in vlib/refhap.py; in-memory transport emulates asyncio's socket transport (self-tested against a socketpair)."),
     "C06": ("fault_enumeration", "4/C06", "history invariants over recorded AEAD calls (DFS + Hypothesis op lists)",
             "Every (key, nonce) used for encryption and every ciphertext accepted is logged by recording AEAD classes rebound from the harness; invariants: no nonce reuse per key, accepted messages genuine, distinct and in send order.",
             "Virtual-time loop; fake transports at the Python API boundary of asyncio/bleak/aiocoap."),
-    "C07": ("exploration", "4/C07", "metamorphic segmentation invariance + generated message list as reference",
+    "C07": ("exploration", "4/C07", "metamorphic segmentation invariance + generated message list as reference (abandoned waiters, the connection's own event handling)",
             "Generated HTTP/EVENT sequences are fed through the real feed loop under every single and double cut (small streams) and random multi-cuts; delivered messages must equal the generated list.",
             "Only well-formed messages are generated (no chunk extensions/trailers)."),
-    "C08": ("exploration", "4/C08", "schedule exploration on a virtual-time loop with tagged responses (bounded DFS + Hypothesis histories), incl. a peer that stops reading and resets the loop has not polled yet (transport model checked against real TCP)",
+    "C08": ("exploration", "4/C08", "schedule exploration on a virtual-time loop with tagged responses (bounded DFS + Hypothesis histories), incl. a peer that stops reading and resets the loop has not polled yet (transport model checked against real TCP); enumerated BLE (failing disconnects) and CoAP (unanswered requests) histories",
             "Interleavings of requests, partial responses, events, cancels, timeouts, FIN/reset are executed on the real connection; each caller must get its own tagged response or a disconnection error, promptly.",
             "Event-loop-callback granularity on an in-memory network."),
     "C09": ("exploration", "4/C09", "strict independent request parser over generated API calls",
             "Every request-issuing API is called with generated arguments; the bytes handed to the transport are parsed by a strict grammar on the accessory side and compared semantically with the arguments.",
             "In-memory transport logs each write call separately."),
-    "C10": ("fault_enumeration", "4/C10", "schedule model over attempt logs on a simulated network (DFS + Hypothesis)",
+    "C10": ("fault_enumeration", "4/C10", "schedule model over attempt logs on a simulated network (DFS + Hypothesis); connect call with real stagger semantics, stored addresses in non-canonical spellings",
             "Per-attempt outcomes and harness events are enumerated/generated; the attempt log is checked for single connector, growing capped back-off, persistence, termination, waiter outcomes and fair exclusion.",
             "Bounded liveness on the virtual clock; statement-level back-off bounds (not the tree's constants)."),
-    "C11": ("fault_enumeration", "4/C11", "fault enumeration over per-attempt outcomes (incl. damaged stored keys) and generated histories; open-connection count on the simulated accessory after every step",
+    "C11": ("fault_enumeration", "4/C11", "fault enumeration over per-attempt outcomes (incl. damaged stored keys) and generated histories; open-connection count on the simulated accessory after every step; CoAP contexts per attempt; removal through the aggregate controller",
             "Histories of failed/successful secure setups, retries, peer closes of old and new connections and close() are executed; the accessory-side set of connections not closed by the controller must stay <= 1 and reach 0 after close.",
             "In-memory network (transport model compared with real TCP in SELFTEST); close() of an idle loop is observed after running to idle."),
     "C12": ("exploration", "4/C12", "model-based histories (Hypothesis op lists) vs subscription/listener model on the simulated IP transport; generated CoAP event notifications; enumerated and generated BLE subscription cases with refused start_notify calls",
             "Subscribe/unsubscribe/listener/drop/reconnect/event-burst histories run against the simulated accessory; registry on the accessory and per-listener call logs are compared with the model.",
             "Polling fallback exemption as written in the statement."),
-    "C13": ("exploration", "4/C13", "decision table over status vectors (exhaustive n<=3) on IP, CoAP and BLE fakes",
+    "C13": ("exploration", "4/C13", "decision table over status vectors (exhaustive n<=3) on IP, CoAP and BLE fakes (writes and reads), whole-request refusals",
             "Scripted accessory replies for every status vector; return values and listener notifications are compared with the table.",
             "Conformant reply shape (a 207 write reply lists every written characteristic)."),
     "C14": ("exploration", "4/C14", "differential vs exact rational model (fractions.Fraction) over generated and enumerated (format, range, step, input) cells, metadata through every construction path incl. the tree's own BLE GATT fetch against a simulated accessory",
             "Service.build_update / check_convert_value over generated formats, ranges, steps and inputs compared with exact arithmetic on the decimal reading of the inputs; garbage must raise FormatError only.",
             "Decimal reading of floats via repr; tolerance regime as stated in the property."),
-    "C15": ("exploration", "4/C15", "reference codec differential, exhaustive short byte strings, Hypothesis + atheris",
+    "C15": ("exploration", "4/C15", "reference codec differential, exhaustive short byte strings, Hypothesis + atheris; pairing TLV replies through the IP connection cut at every offset",
             "encode/decode compared with an independent TLV8 codec on a boundary grid and generated lists; every byte string of length <=2 (<=3 thorough) and generated/mutated strings must decode or raise TlvParseException with content equal to a plain walk.",
             "Reference codec in vlib/refhap.py."),
     "C16": ("exploration", "4/C16", "reflection-driven round trip + reference struct encoder",
@@ -57,13 +57,13 @@ T = {
     "C17": ("exploration", "4/C17", "exhaustive fragment-size x length grid, reference reassembly, CoAP outcome vectors, CoAP first-contact reads of generated services, BLE requests after abandoned ones",
             "BLE encode_pdu / _write_pdu / _read_pdu and CoAP encode/decode_all_pdus are compared with a reference reassembler over the full 8..64 x 0..200 grid, realistic sizes, all compositions of small responses and all outcome vectors for k<=4.",
             "Fake GATT client at the bleak API boundary."),
-    "C18": ("exploration", "4/C18", "history exploration vs freshness model with independent partial-tag AEAD",
+    "C18": ("exploration", "4/C18", "history exploration vs freshness model (window + high-water mark) with independent partial-tag AEAD; several listeners, repeated deliveries, stale plain advertisements, reloaded pairing",
             "Histories of broadcast advertisements (genuine at +1/+k/0/-k/beyond, wrong key, wrong id, bit flips, inner-counter mismatch) are fed to the BLE controller callback; listener calls and state_num are compared with the model.",
             "Authenticity decided by an independent implementation of the truncated-tag AEAD."),
-    "C19": ("exploration", "4/C19", "schedule exploration of waiters on a virtual clock + generated/fuzzed advertisement contents",
+    "C19": ("exploration", "4/C19", "schedule exploration of waiters on a virtual clock (incl. same-iteration orderings at the deadline) + generated/fuzzed advertisement contents",
             "Waiter/advertisement schedules on the mDNS, BLE and aggregate controllers; completion instants and parsed descriptions compared with an independent parse; callbacks must never raise.",
             "zeroconf cache fed directly; scanner not started."),
-    "C20": ("fault_enumeration", "4/C20", "crash-point enumeration (every effect, every write prefix) + generated round trips; restart after every step of generated IP / BLE configuration- and state-number histories on a file cache",
+    "C20": ("fault_enumeration", "4/C20", "crash-point enumeration (every effect, every write prefix) + generated round trips; restart after every step of generated IP / BLE configuration- and state-number histories on a file cache; loading with subsets of transports; the real Controller on an empty file cache",
             "Controller.save_data is aborted at every file-system effect and byte prefix and the file re-read by a fresh Controller; pairing sets and accessory databases round-trip through save/load and the cache file; every prefix of a cache file loads as empty.",
             "Process-crash model with surviving OS; rename atomic."),
 }
